@@ -12,28 +12,21 @@ theorem gen_append_eq (l : Logs) (n : Nat) (hoff : l.offset ≤ LOG_CAPACITY) :
     let m := Logs.append LOG_CAPACITY l n
     m.1.offset = r.2.1 ∧ m.1.len = r.2.2 ∧ m.1.buf = l.buf ∧
     m.2.src = r.1.1 ∧ some m.2.dst1 = r.1.2.1 ∧ m.2.len1 = r.1.2.2.1 ∧ m.2.dst2 = r.1.2.2.2.1 ∧ m.2.len2 = r.1.2.2.2.2 := by
+  -- shape-agnostic: every `if` on either side is split, the rest is linear arithmetic over the
+  -- extracted capacity — a rewrite of `append` that computes the same plan re-proves itself
+  have hc : LOG_CAPACITY = 1001 := rfl
   unfold log_append Logs.append ptrAdd
-  by_cases h1 : n > LOG_CAPACITY
-  · simp only [h1, if_true]
-    by_cases h2 : LOG_CAPACITY ≤ LOG_CAPACITY - l.offset
-    · simp [h2]
-    · simp [h2]
-  · simp only [h1, if_false]
-    by_cases h2 : n ≤ LOG_CAPACITY - l.offset
-    · simp [h2]
-    · simp [h2]
+  simp only [hc] at hoff ⊢
+  (repeat' split) <;> simp <;> omega
 
 /-- `Logs::read_ptrs` -/
 theorem gen_read_ptrs_eq (l : Logs) :
     let r := log_read_ptrs l.offset l.len
     let m := Logs.readPtrs LOG_CAPACITY l
     some m.1 = r.1 ∧ m.2.1 = r.2.1 ∧ m.2.2.1 = r.2.2.1 ∧ m.2.2.2 = r.2.2.2 := by
+  have hc : LOG_CAPACITY = 1001 := rfl
   unfold log_read_ptrs Logs.readPtrs ptrAdd
-  by_cases h1 : l.len < LOG_CAPACITY
-  · simp [h1]
-  · simp only [h1, if_false]
-    by_cases h2 : l.offset = 0
-    · simp [h2]
-    · simp [h2]
+  simp only [hc]
+  (repeat' split) <;> simp <;> omega
 
 end SfVerif
